@@ -7,8 +7,8 @@ import vlib
 
 LEVEL = "model_checking"
 MANIFEST = {
-    "engine": "tlc MCObjectReads + vhgc c23 (gated / free-running drivers) + tlc TraceObjectReads + vhgc-race c23race",
-    "technique": "R reader goroutines share one filesystem.Storage while a writer on a second Storage of the same repository adds loose objects, packs, references and repacks; schedules are seeded and perturbed at every filesystem step and verif yield point (gated scheduler: one step at a time; and free-running with seeded yields); every call is logged invoke/response and TLC decides each recorded history against the ObjectReads oracle (a read returns the stored value, or not-found only if the key can be absent at an instant of the read: linearizability against the set of published keys), whose closed form TLC proves equal to textbook linearizability on all small histories; the same driver built with -race decides the 'never race' clause by the Go race detector",
+    "engine": "tlc PinnedHandles + vhgc c23h + tlc TracePinnedHandles + tlc MCObjectReads + vhgc c23 (gated / free-running drivers) + tlc TraceObjectReads + vhgc-race c23race",
+    "technique": "R reader goroutines share one filesystem.Storage while a writer on a second Storage of the same repository adds loose objects, packs, references and repacks; schedules are seeded and perturbed at every filesystem step and verif yield point (gated scheduler: one step at a time; and free-running with seeded yields); every call is logged invoke/response and TLC decides each recorded history against the ObjectReads oracle (a read returns the stored value, or not-found only if the key can be absent at an instant of the read: linearizability against the set of published keys), whose closed form TLC proves equal to textbook linearizability on all small histories; a second driver (5 packs, fd pool 1-4, no writer) mixes long-lived IterEncodedObjects walks, abbreviated-hash lookups whose run ends inside / at the end of a fanout bucket, plain reads and CloseIdleDescriptors - free, gated, and in the directed order that is PinnedHandles' counterexample for an unmatched release (walker stopped inside pack X, prefix lookup on X, eviction, walker resumes) - and every SharedFile acquire/release event, attributed to the calling goroutine, is folded through PinnedHandles (every release matches an acquire of the same reader; a held descriptor is never closed); the same driver built with -race decides the 'never race' clause by the Go race detector",
     "text": "fd-pool capacities 1/2/256 x lazy/in-memory idx x 2-4 readers x 8 writer programs (loose, pack, repack orders) x optional reader-side Reindex, object-cache of 256 bytes; object (content, presence, size, type), reference and index reads; quick 24 histories, thorough 240; oracle equivalence exhaustive for <= 1 publish + <= 2 reads (thorough 3) of a key, all interleavings.",
     "note": "The return-value clause is decided by TLC on recorded histories; the 'never race on shared memory' clause is decided by the Go race detector (a dynamic tool outside the model-checking family), steered by the same model-driven driver without any shared logging. Schedules are sampled, not exhaustive; a goroutine that blocks on an in-memory lock while its holder is parked is detected by a timeout, so gated schedules are reproducible only up to those timeouts. Verification hooks exist in sharedfile / fdpool only (none in storage/filesystem/object.go): the other yield points are the filesystem steps. The writer's references are written once each; PackRefs and index rewrites by the writer are left to C16 / C20.",
 }
@@ -21,7 +21,7 @@ CHECK_DEADLOCK FALSE
 
 
 def keykind(k):
-    return {"o": "object", "r": "reference", "i": "index"}[k[0]]
+    return {"o": "object", "r": "reference", "i": "index", "w": "walk"}[k[0]]
 
 
 def errclass(msg):
@@ -99,7 +99,51 @@ def race_reports(ctx, logbase):
     return sigs
 
 
+CFG_PH = """CONSTANTS Holders = {"r1", "r2", "r3"} MaxHold = 2 Faulty = %s
+INIT Init
+NEXT Next
+INVARIANTS %s
+"""
+
+
+def handles(ctx):
+    """Descriptor side: PinnedHandles (model half), then the handle driver judged by TracePinnedHandles + ObjectReads."""
+    ctx.tlc("PinnedHandles", cfg="ph_ok.cfg", cfg_text=CFG_PH % ("FALSE", "Balanced PinnedOpen ReadSafe"), workers=1, timeout=600)
+    bad = ctx.tlc("PinnedHandles", cfg="ph_faulty.cfg", cfg_text=CFG_PH % ("TRUE", "ReadSafe"), workers=1, timeout=600,
+                  expect_violation=True, count=False)
+    if not bad.violated:
+        raise vlib.ToolingError("PinnedHandles with an unmatched release does not reach a read on a closed descriptor: the model is vacuous")
+    runs = 60 if ctx.thorough else 10
+    hp, pp = ctx.path("handle_hist.ndjson"), ctx.path("pinned.ndjson")
+    ctx.vh("c23h", [hp, pp, runs], pkg="vhgc", timeout=1800)
+    hists = [json.loads(l) for l in open(hp)]
+    t = ctx.tlc("TracePinnedHandles", cfg="TracePinnedHandles.cfg", files={"pinned.ndjson": open(pp).read()}, timeout=1800,
+                dirname="tla-pinned", workers=1, count=False)
+    traces = {}
+    for l in open(pp):
+        x = json.loads(l)
+        traces[x["id"]] = x
+    n = 0
+    cfg_of = {h["id"]: h["cfg"] for h in hists}
+    for l in open(os.path.join(t.dir, "pinned_verdicts.ndjson")):
+        v = json.loads(l)
+        n += 1
+        if not v["ok"]:
+            tr = traces[v["id"]]
+            ev = tr["ev"][v["at"] - 1]
+            who = "reader" if v["h"].startswith("r") else "internal-goroutine"
+            ctx.diverge("handle|%s|%s-by-%s" % (v["why"], ev["ev"].lower(), who),
+                        "descriptor event trace rejected by PinnedHandles: %s at event %d (%s by %s, refs=%d open=%d)" % (
+                            v["why"], v["at"], ev["ev"], v["h"], ev["refs"], ev["open"]),
+                        {"cfg": cfg_of.get(tr["run"]), "descriptor": tr["file"], "events_up_to_rejection": tr["ev"][max(0, v["at"] - 12):v["at"]]})
+    if n != len(traces):
+        raise vlib.ToolingError("TracePinnedHandles judged %d of %d descriptor traces" % (n, len(traces)))
+    ctx.cov["descriptor_traces_validated"] = n
+    return hists
+
+
 def run(ctx):
+    hhists = handles(ctx)
     r = ctx.tlc("MCObjectReads", cfg_text=CFG_MC % (3 if ctx.thorough else 2), workers=2, timeout=1200)
     runs = 240 if ctx.thorough else 24
     hp = ctx.path("objreads.ndjson")
@@ -107,6 +151,7 @@ def run(ctx):
     hists = [json.loads(l) for l in open(hp)]
     if len(hists) != runs:
         raise vlib.ToolingError("driver recorded %d of %d histories" % (len(hists), runs))
+    hists += hhists  # the handle driver's API histories go through the same oracle
     # self-test of the trace oracle: corrupted copies of a recorded history must be rejected with the right class
     probes = selftest_histories(hists)
     verdicts = {}
